@@ -32,6 +32,17 @@ import ponyutil
 
 NL = c11.NL
 
+def _del_flushes_all():
+    """does the tree's own Entity.flush delegate `obj.flush()` of a marked_to_delete object to the full session flush (de6b988)?
+    Read from its source on every run; the model follows (flag `delAll` of the op)."""
+    import inspect
+    try: src = inspect.getsource(core.Entity.flush)
+    except Exception: return False
+    i = src.find("== 'marked_to_delete'")
+    return i >= 0 and 'cache.flush()' in src[i:i + 400]
+
+DEL_FLUSHES_ALL = _del_flushes_all()
+
 
 def gen_spec(rng):
     spec = c11.gen_spec(rng)
@@ -155,8 +166,10 @@ class W14(c11.World):
         """obj.flush(): the per-object flush"""
         o = self.obj(op['o'])
         pend = [o] if (self.auto and o._status_ == 'created' and o._pkval_ is None) else []
+        if DEL_FLUSHES_ALL and o._status_ == 'marked_to_delete': pend = self.pending_auto()     # the whole queue is saved
         err, exc = self.call(o.flush)
-        return {'err': err, 'mop': {'k': 'flushOne', 'o': op['o'], 'ids': self.ids_after(pend, err, exc)}, 'msg': str(exc) if err else None}
+        return {'err': err, 'mop': {'k': 'flushOne', 'o': op['o'], 'ids': self.ids_after(pend, err, exc), 'delAll': DEL_FLUSHES_ALL},
+                'msg': str(exc) if err else None}
 
     def ids_after(self, pend, err, exc):
         ids = self.new_ids(pend)
